@@ -169,9 +169,28 @@ pub fn emulate_p1(s: &str, strip_comments: bool) -> Option<String> {
     let lx = lex(s).ok()?;
     let mut out = String::new();
     let mut i = 0;
+    // a string that is the argument of a directive (`define text, `line, `begin_keywords, `pragma,
+    // `include) is part of that directive's node, not a literal of its own
+    let mut directive_line = false;
+    let mut next_str_is_argument = false;
     while i < lx.len() {
         let l = &lx[i];
-        if matches!(l.k, K::Str | K::EscId) {
+        if l.k == K::Bt && matches!(&s[l.b..l.e], "`define" | "`line" | "`pragma") {
+            directive_line = true;
+        } else if l.k == K::Ws && s[l.b..l.e].contains('\n') {
+            directive_line = false;
+        }
+        if l.k == K::Bt && matches!(&s[l.b..l.e], "`begin_keywords" | "`include") {
+            next_str_is_argument = true;
+        } else if l.k == K::Str && next_str_is_argument {
+            next_str_is_argument = false;
+            out.push_str(&s[l.b..l.e]);
+            i += 1;
+            continue;
+        } else if !is_trivia(l.k) {
+            next_str_is_argument = false;
+        }
+        if matches!(l.k, K::Str | K::EscId) && !directive_line {
             out.push_str(&s[l.b..l.e]);
             let mut j = i + 1;
             while j < lx.len() && is_trivia(lx[j].k) {
